@@ -49,11 +49,16 @@ func TestC18Reload(t *testing.T) {
 	rapid.Check(t, func(t *rapid.T) {
 		var steps []reloadStep
 		for i, n := 0, rapid.IntRange(1, 5).Draw(t, "nsteps"); i < n; i++ {
-			steps = append(steps, reloadStep{Kind: rapid.SampledFrom([]string{"good", "good", "unparsable", "check-fails", "samedir-unsupported", "missing-file"}).Draw(t, "kind"),
+			steps = append(steps, reloadStep{Kind: rapid.SampledFrom([]string{"good", "good", "unparsable", "check-fails", "samedir-unsupported", "missing-file", "check-fails-other"}).Draw(t, "kind"),
 				Load: rapid.SampledFrom([]int{0, 6, 18}).Draw(t, "load"), HUPs: rapid.SampledFrom([]int{1, 1, 2, 5}).Draw(t, "hups")})
 		}
 		if rapid.Bool().Draw(t, "forceLoadedGood") {
 			steps = append([]reloadStep{{Kind: "good", Load: 18, HUPs: 1}}, steps...)
+		}
+		withHooks := rapid.IntRange(0, 2).Draw(t, "hooks") == 0
+		if withHooks && rapid.Bool().Draw(t, "refusedThenRepaired") {
+			// a reload to the other directory is refused, the directory is repaired, the next reload succeeds
+			steps = append([]reloadStep{{Kind: "check-fails-other", HUPs: 1}, {Kind: "good", HUPs: 1}}, steps...)
 		}
 		root, err := os.MkdirTemp("", "reload-")
 		if err != nil {
@@ -74,7 +79,20 @@ func TestC18Reload(t *testing.T) {
 		cfgFile := filepath.Join(root, "store.yaml")
 		wa.cfg.WriteYAML(cfgFile, wa.base)
 		upg := rapid.SampledFrom([]string{"", "local"}).Draw(t, "upgrades")
-		a, err := startAgent(root, cfgFile, agentOpts{listeners: []string{"sasl", "http"}, upgrades: upg})
+		// optionally a hooks directory: the hooks are part of the configuration the agent serves -- they must be told the
+		// base directory the agent really works on, never the one of a refused reload
+		hooksDir, hookLog := "", filepath.Join(root, "hook.log")
+		if withHooks {
+			hooksDir = filepath.Join(root, "hooks")
+			os.Mkdir(hooksDir, 0o755)
+			os.WriteFile(filepath.Join(hooksDir, "log-store"), []byte(fmt.Sprintf("#!/bin/sh\necho \"$WHAWTY_AUTH_STORE\" >> %s\n", hookLog)), 0o755)
+			vlib.Class("reload:with-hooks-directory")
+		}
+		hookLines := func() []string {
+			data, _ := os.ReadFile(hookLog)
+			return strings.Fields(string(data))
+		}
+		a, err := startAgent(root, cfgFile, agentOpts{listeners: []string{"sasl", "http"}, upgrades: upg, hooksDir: hooksDir})
 		if err != nil {
 			t.Fatalf("VERIF-INFRA %v", err)
 		}
@@ -98,9 +116,27 @@ func TestC18Reload(t *testing.T) {
 			// a write lands in w's directory under w's default parameter set
 			gen++
 			np := fmt.Sprintf("%s-pw-%d", w.user, gen)
+			nHook := len(hookLines())
 			st, body, err := a.api("/api/update", map[string]string{"username": w.user, "oldpassword": w.pw, "newpassword": np}, nil)
 			if err != nil || st != 200 {
 				t.Fatalf("VIOLATION C18: %s a password update under configuration %s failed: %d %s %v", when, w.name, st, body, err)
+			}
+			if hooksDir != "" {
+				// the hook round that follows this change (at once, or when the rate limit allows) names w's directory
+				deadline := time.Now().Add(15 * time.Second)
+				for len(hookLines()) <= nHook && time.Now().Before(deadline) {
+					time.Sleep(50 * time.Millisecond)
+				}
+				hl := hookLines()
+				if len(hl) <= nHook {
+					t.Fatalf("VIOLATION C18: %s no hook was started within 15 s after a successful change under configuration %s\n%s", when, w.name, tail(a.log(), 1200))
+				}
+				for _, l := range hl[nHook:] {
+					if filepath.Clean(l) != filepath.Clean(w.base) {
+						t.Fatalf("VIOLATION C18: %s the agent serves configuration %s (directory %s) but started its hooks with WHAWTY_AUTH_STORE=%s: mixture of old and new configuration", when, w.name, w.base, l)
+					}
+				}
+				vlib.Class("reload:hook-environment-checked")
 			}
 			w.pw = np
 			data, rerr := os.ReadFile(filepath.Join(w.base, w.user+".user"))
@@ -124,10 +160,15 @@ func TestC18Reload(t *testing.T) {
 				os.WriteFile(cfgFile, []byte(rapid.SampledFrom([]string{"basedir: [unclosed", "basedir: /x\nunknown: 1\n", "", "basedir: \"\"\n", "default: 9\nbasedir: /x\n"}).Draw(t, "bad")), 0o600)
 			case "check-fails":
 				other.cfg.WriteYAML(cfgFile, noAdmin)
+			case "check-fails-other":
+				// the OTHER configuration's own directory, which fails the check right now (its only admin is away) and is repaired afterwards
+				os.Rename(filepath.Join(other.base, "root.admin"), filepath.Join(root, "held-root.admin"))
+				other.cfg.WriteYAML(cfgFile, other.base)
 			case "samedir-unsupported":
 				// same base directory, but parameter sets under which no admin record is supported
 				c2 := &vlib.Config{Default: 9, Sets: []*vlib.ParamSet{{ID: 9, Alg: vlib.AlgArgon, Time: 1, Memory: 8, Threads: 1, Length: 16}}}
-				c2.WriteYAML(cfgFile, cur.base+"/")
+				// (the directory spelled exactly as before, or differently: the same directory either way)
+				c2.WriteYAML(cfgFile, cur.base+rapid.SampledFrom([]string{"", "", "/", "/."}).Draw(t, "spelling"))
 			case "missing-file":
 				os.Remove(cfgFile)
 			}
@@ -202,6 +243,9 @@ func TestC18Reload(t *testing.T) {
 			}
 			stop.Store(true)
 			wg.Wait()
+			if st.Kind == "check-fails-other" {
+				os.Rename(filepath.Join(root, "held-root.admin"), filepath.Join(other.base, "root.admin"))
+			}
 			vlib.Eval()
 			if m, _ := bad.Load().(string); m != "" {
 				t.Fatalf("VIOLATION C18: %s (step %d %+v)\n%s", m, si, st, tail(a.log(), 1500))
